@@ -280,6 +280,7 @@ type Case struct {
 	Plugin string
 	Args   []*Ty
 	Class  string // input class (distribution key)
+	Second []*Ty  // twin case: a second call (name suffix B) of the same plugin with these arguments
 }
 
 var prefix = map[string]string{
@@ -298,6 +299,33 @@ var Plugins = []string{"all", "any", "apply", "clone", "compare", "compose", "co
 	"equal", "filter", "flip", "fmap", "gostring", "hash", "intersect", "join", "keys", "max", "mem", "min", "pipeline",
 	"set", "sort", "takewhile", "toerror", "traverse", "tuple", "uncurry", "union", "unique"}
 
+// Twin: the argument list with every top-level literal or named type replaced by a fresh named type
+// (ids base+i) with the same underlying type; nil when no position can be named.
+func (c *Case) Twin(base int) []*Ty {
+	out := make([]*Ty, len(c.Args))
+	any := false
+	for i, a := range c.Args {
+		switch {
+		case a.untyped() || a.K == "tup" || a.K == "err":
+			out[i] = a
+		case a.K == "n":
+			if a.Err {
+				out[i] = a
+			} else {
+				out[i] = Named(base+i, a.E[0])
+				any = true
+			}
+		default:
+			out[i] = Named(base+i, a)
+			any = true
+		}
+	}
+	if !any {
+		return nil
+	}
+	return out
+}
+
 // Source renders the user file of the case.
 func (c *Case) Source() string {
 	decls := map[int]string{}
@@ -307,6 +335,14 @@ func (c *Case) Source() string {
 	for i, a := range c.Args {
 		args[i] = a.Expr(decls, &helpers)
 		unsafe = unsafe || a.usesUnsafe()
+	}
+	second := ""
+	if c.Second != nil {
+		args2 := make([]string, len(c.Second))
+		for i, a := range c.Second {
+			args2[i] = a.Expr(decls, &helpers)
+		}
+		second = fmt.Sprintf("\t%sB(%s)\n", prefix[c.Plugin], strings.Join(args2, ", "))
 	}
 	var b strings.Builder
 	b.WriteString("package p\n\n")
@@ -330,7 +366,7 @@ func (c *Case) Source() string {
 	for _, h := range helpers {
 		b.WriteString(h)
 	}
-	fmt.Fprintf(&b, "\nfunc use() {\n\t%s(%s)\n}\n", prefix[c.Plugin], strings.Join(args, ", "))
+	fmt.Fprintf(&b, "\nfunc use() {\n\t%s(%s)\n%s}\n", prefix[c.Plugin], strings.Join(args, ", "), second)
 	return b.String()
 }
 
